@@ -163,6 +163,12 @@ class MinPathCoverCycles(walkmodel.AbstractWalkModelDiGraph):
 
             if model.is_solved():
                 self._solution = model.get_solution()
+                if self.cover_type == "node":
+                    # The k-model worked on the node-expanded graph: convert its walks back to walks of the original graph
+                    self._solution = {
+                        "_walks_internal": self._solution["walks"],
+                        "walks": self.G_internal.get_condensed_paths(self._solution["walks"]),
+                    }
                 self.set_solved()
                 self.solve_statistics = model.solve_statistics
                 self.solve_statistics["mpc_solve_time"] = time.perf_counter() - self.solve_time_start
@@ -210,7 +216,8 @@ class MinPathCoverCycles(walkmodel.AbstractWalkModelDiGraph):
     def get_lowerbound_k(self):
 
         if self._lowerbound_k is None:
-            stG = stdigraph.stDiGraph(self.G)
-            self._lowerbound_k = stG.get_width(edges_to_ignore=self.edges_to_ignore)
+            stG = stdigraph.stDiGraph(self.G, additional_starts=self.additional_starts, additional_ends=self.additional_ends)
+            # As in the k-models, the global source/sink edges are passed together with the ignored edges
+            self._lowerbound_k = stG.get_width(edges_to_ignore=list(self.edges_to_ignore) + list(stG.source_sink_edges))
 
         return self._lowerbound_k
